@@ -717,6 +717,30 @@ pub fn serial_multi_case(timed: bool, msgs: &[Message<'static>], rd: VecDeque<RE
     Some(format!("{} rest={}", parts.join(" ; "), rest))
 }
 
+/// `serial_multi_case` (timed) while a second thread keeps creating and dropping other `SerialSignBus` objects over
+/// ports of its own, a few thousand times a second.
+pub fn serial_multi_case_churn(msgs: &[Message<'static>], rd: VecDeque<REv>, wr: VecDeque<WEv>) -> Option<String> {
+    use std::sync::atomic::{AtomicBool, Ordering};
+    use std::sync::Arc;
+    let stop = Arc::new(AtomicBool::new(false));
+    let stop2 = stop.clone();
+    let churn = std::thread::spawn(move || {
+        let mut n = 0u64;
+        while !stop2.load(Ordering::Relaxed) {
+            let port = MockPort::new(VecDeque::new(), VecDeque::new(), weird_settings(), FailAt::Never);
+            let bus = SerialSignBus::try_new(port);
+            drop(bus);
+            n += 1;
+            std::thread::sleep(Duration::from_micros(300));
+        }
+        n
+    });
+    let r = serial_multi_case(true, msgs, rd, wr);
+    stop.store(true, Ordering::Relaxed);
+    let _ = churn.join();
+    r
+}
+
 /// `serial_multi_case` run from a destructor while the calling thread is unwinding from a panic (a bus handle that
 /// says goodbye or finishes a transfer in its Drop): pacing is owed there as anywhere else.
 pub fn serial_multi_case_unwinding(msgs: &[Message<'static>], rd: VecDeque<REv>, wr: VecDeque<WEv>) -> Option<String> {
@@ -808,7 +832,7 @@ thread_local! {
 /// A port "as the operating system hands it out": 110 baud, 5 data bits, even parity, two stop bits, software flow control.
 impl Default for RcPort {
     fn default() -> Self {
-        let p = MockPort::new(VecDeque::new(), VecDeque::new(), parse_settings("0,0,2,1,1").expect("settings"), FailAt::Never);
+        let p = MockPort::new(VecDeque::new(), VecDeque::new(), weird_settings(), FailAt::Never);
         let _ = LAST_DEFAULT_DEV.try_with(|d| *d.borrow_mut() = Some(p.dev.clone())); // (not while thread-locals are being torn down)
         RcPort(Rc::new(RefCell::new(p)))
     }
